@@ -32,4 +32,23 @@ PROPS = {
     "C14": P(["C4E.Props.C14"], ["C4E.Props.C14"],
              [("distrfaults", 300, 5000)],
              {"d.bb": ["states", "main", "bal", "inv", "calls"], "d.setparams": "*"}),
+    "C05": P(["C4E.Props.C05"], ["C4E.Props.C05"],
+             [("vest", 250, 4000), ("split", 80, 1000)],
+             {"v.createPool": ["pools", "bal", "inv"], "v.withdraw": ["pools", "bal", "inv"], "v.send": ["pools", "bal", "inv"],
+              "v.createVA": ["pools", "bal", "inv"], "v.split": ["pools", "bal", "inv"], "v.move": ["pools", "bal", "inv"],
+              "v.moveDenoms": ["pools", "bal", "inv"]}),
+    "C06": P(["C4E.Props.C06"], ["C4E.Props.C06"],
+             [("vest", 300, 5000)],
+             {"v.withdraw": ["paid", "pools", "bal"], "v.q.pools": "*", "v.send": ["pools"]},
+             exact_ops=["v.withdraw", "v.q.pools"]),
+    "C07": P(["C4E.Props.C07"], ["C4E.Props.C07"],
+             [("split", 300, 5000), ("vest", 100, 1000)],
+             {"v.split": ["acct", "bal"], "v.move": ["acct", "bal"], "v.moveDenoms": ["acct", "bal"],
+              "v.q.locked": "*", "v.q.spendable": "*", "v.delegate": ["acct", "bal"]},
+             exact_ops=["v.split", "v.move", "v.moveDenoms", "v.q.locked"],
+             assumptions=["IsSendEnabledCoins is assumed true (default bank params)"]),
+    "C08": P(["C4E.Props.C08"], ["C4E.Props.C08"],
+             [("vest", 300, 5000), ("split", 60, 600)],
+             {"v.send": ["acct", "bal", "pools"], "v.createVA": ["acct", "bal", "pools"], "v.q.locked": "*"},
+             exact_ops=["v.send", "v.createVA"]),
 }
